@@ -12,6 +12,8 @@ pub mod c08;
 pub mod c09;
 pub mod c10;
 pub mod c11;
+pub mod c12;
+pub mod c13;
 pub mod c14;
 pub mod c15;
 pub mod c16;
@@ -44,6 +46,8 @@ pub fn all() -> Vec<Prop> {
         c09::prop(),
         c10::prop(),
         c11::prop(),
+        c12::prop(),
+        c13::prop(),
         c14::prop(),
         c15::prop(),
         c16::prop(),
